@@ -1,34 +1,248 @@
+import os
 from vp.api import Q, Mutant
+C13DIR = os.path.dirname(os.path.abspath(__file__))   # harness files shared with C05 (also holds the profiling.h forwarder)
 TITLE = "Collective activations reach each destination exactly once"
-U = ["parsec/remote_dep.c", "parsec/remote_dep.h"]
+RD_C, RD_H, RD_MPI = "parsec/remote_dep.c", "parsec/remote_dep.h", "parsec/remote_dep_mpi.c"
 KF = "C13-chain-relay-differing-dests"
+# struct hack: parsec_remote_deps_t.output[1] is indexed up to max_dep_count inside a larger allocation
 PATCH_H = ("parsec/remote_dep.h", r"output\[1\];", "output[VP_NOUT];")
-PATCH_KEY = ("parsec/remote_dep_mpi.c",
+# remote_dep_mpi_pack_dep recovers its remote_deps from an integer data key kept in a union member of
+# the send command; CBMC cannot dereference through that integer (measured: one send = 64 s / 5.4 GB).
+# The cast is rewritten to VP_KEY2DEPS(key): under CBMC it ASSERTS key == address of the sender's deps
+# and returns the typed pointer; in the native replay it expands to the original cast.
+PATCH_KEY = (RD_MPI,
              r"parsec_remote_deps_t \*deps = \(parsec_remote_deps_t\*\)item->cmd\.activate\.task\.source_deps;",
              "parsec_remote_deps_t *deps = VP_KEY2DEPS(item->cmd.activate.task.source_deps);")
 TOPO = {0: "star", 1: "chain", 2: "binomial"}
-OUTSIDE = []
-ASSUMPTIONS = []
-BOUNDS = {}
 
-def unwindset(nr, nout):
+OUTSIDE = [
+    "more ranks / outputs than the bounds of each query; rank sets wider than one 32-bit word (> 32 ranks)",
+    "bytes of the payloads and of the header on the wire (pack/unpack stubs record identities and sizes, not bytes)",
+    "the rendezvous GET/PUT handshake after the activation (remote_dep_mpi_get_start/put_start), MPI itself",
+    "the root-side gathering in parsec.c:parsec_release_dep_fct (mirrored by a harness callback over the same successor iterator)",
+    "activation aggregation (runtime_comm_aggregate=1) and the priority reordering of the command queue",
+    "DTD taskpools (always star), reshape-before-send promises",
+    "concurrency between the communication thread and compute threads",
+]
+ASSUMPTIONS = [
+    "composition (manual argument): pair.c shows for EVERY destination s that its expected sender p sends it exactly one activation "
+    "with payload rule P(p,s)=need(s) and unchanged mask, that p is the root or a destination strictly closer to the root, and that nobody "
+    "else sends to s; induction over the relative position gives 'every destination is reached exactly once'. pack.c shows that the real "
+    "remote_dep_mpi_pack_dep implements the payload rule P; recv.c shows that the real receiver code consumes such an activation as "
+    "need(s) and then runs the real propagation. relay.c / e2e.c (thorough tier) check the same thing as one whole-system simulation.",
+    "the successor iterator of the producer task class (ptgpp-generated in reality) is a stub enumerating (output k, rank r in dest[k]); "
+    "the same relation is seen by every rank",
+    "remote_dep_dequeue_send is a stub: pair/relay record (sender, peer, payload rule, mask); e2e queues the command and a harness "
+    "'communication thread' packs it with the real remote_dep_mpi_pack_dep (funnelled path, aggregation off)",
+    "outputs carry no parsec_data_copy_t (data.data == NULL with a non-NULL datatype) in pair/relay/recv/e2e: reference counting of "
+    "payload copies is not part of this property; pack.c uses real static copies",
+    "MPI datatype handles are addresses of harness objects; pack_size = count * extent with extents chosen by the harness "
+    "(output k: 8*(k+1) bytes, or 4096 for the oversized output)",
+    "spec_parent() (scenario.h) is written from the documentation of parsec_remote_dep_activate and is used as the witness of the "
+    "existential 'some rank sends to s' and to describe the known-finding class",
+]
+BOUNDS = {"quick": {"pair": "NR=3 (star, chain), NR=4 (binomial), NOUT=2", "pack": "NR=4, NOUT=3, short limit in {0, default, default+oversized}",
+                    "recv": "NR=3, NOUT=3"},
+          "thorough": {"pair": "NR<=4 x NOUT<=3 all topologies, binomial NR=5", "relay": "whole system NR=3 (binomial NR=4), NOUT=2",
+                       "e2e": "whole pipeline NR=3, NOUT=2", "pack": "NR=8, NOUT=3", "recv": "NR=4, NOUT=3"}}
+
+STUBS_RELAY = ["remote_dep_dequeue_send (records sender, peer, payload rule, propagation mask)",
+               "task_class.iterate_successors (enumerates (k, r in dest[k]))",
+               "tdm.outgoing_message_start (returns 1)", "parsec_taskpool_update_runtime_nbtask (no-op)",
+               "root-side gathering of parsec_release_dep_fct (harness callback root_gather)"]
+F_RELAY = ["parsec_remote_dep_activate", "parsec_remote_dep_propagate", "parsec_gather_collective_pattern",
+           "remote_dep_bcast_star_child", "remote_dep_bcast_chainpipeline_child", "remote_dep_bcast_binomial_child",
+           "remote_dep_mark_forwarded", "remote_dep_is_forwarded", "remote_dep_reset_forwarded", "remote_dep_rank_to_bit",
+           "remote_dep_bit_to_rank", "remote_dep_complete_and_cleanup", "remote_deps_free", "parsec_lifo_push"]
+
+
+FIX_MARKER = "remote_dep_uniform_destinations"     # introduced by fix.patch (star fallback for differing destination sets)
+_fixed = [False]
+
+
+def detect_fix(ctx):
+    """The repaired relay changes the documented tree (scenario.h: RELAY_STAR_FALLBACK) and adds two loops in
+    front of the relay loops of parsec_remote_dep_activate (loop numbers in the unwindset shift by 2)."""
+    try:
+        with open(os.path.join(ctx.repo, RD_C)) as f:
+            _fixed[0] = FIX_MARKER in f.read()
+    except OSError:
+        _fixed[0] = False
+    return _fixed[0]
+
+
+def fixdefs():
+    return ["RELAY_STAR_FALLBACK=1"] if _fixed[0] else []
+
+
+def us_relay(nout):
     m = nout + 1
-    return ["remote_dep_bcast_binomial_child.0:33", "parsec_lifo_push.1:2", "parsec_remote_dep_activate.7:2",
-            "parsec_remote_dep_activate.8:%d" % m, "remote_dep_complete_and_cleanup.1:%d" % m,
-            "parsec_remote_dep_propagate.1:%d" % m, "parsec_remote_dep_propagate.0:2"]
+    sh = 2 if _fixed[0] else 0
+    us = ["remote_dep_bcast_binomial_child.0:33", "parsec_lifo_push.1:2", "parsec_remote_dep_activate.%d:2" % (7 + sh),
+          "parsec_remote_dep_activate.%d:%d" % (8 + sh, m), "remote_dep_complete_and_cleanup.1:%d" % m,
+          "parsec_remote_dep_propagate.1:%d" % m, "parsec_remote_dep_propagate.0:2"]
+    if sh:
+        us += ["parsec_remote_dep_activate.1:2", "parsec_remote_dep_activate.2:%d" % m]
+    return us
 
-def pair_q(nr, nout, topo, part, tiers=("quick", "thorough"), timeout=1500):
-    return Q("pair_%s_n%d_o%d_%s" % (TOPO[topo], nr, nout, "ab"[part]), ["pair.c"],
-             defs=["NR=%d" % nr, "NOUT=%d" % nout, "VP_NOUT=%d" % nout, "TOPO=%d" % topo, "PART=%d" % part],
-             unwind=max(nr, nout) + 1, unwindset=unwindset(nr, nout), object_bits=12, patches=[PATCH_H], units=U,
-             kf=(KF if (topo and part == 0) else None), timeout=timeout, tiers=tiers, info={})
+
+def us_recv(nout):
+    m = nout + 1
+    return us_relay(nout) + ["remote_dep_get_datatypes.7:%d" % m, "remote_dep_get_datatypes.5:%d" % m, "remote_dep_get_datatypes.4:2",
+                             "remote_dep_release_incoming.4:%d" % m, "remote_dep_release_incoming.6:%d" % m,
+                             "remote_dep_release_incoming.8:%d" % m, "remote_dep_release_incoming.5:2",
+                             "remote_dep_release_incoming.3:%d" % m]
+
+
+def pair_q(nr, nout, topo, part, tiers=("quick", "thorough"), timeout=2400, prefix=""):
+    return Q("%spair_%s_n%d_o%d_%s" % (prefix, TOPO[topo], nr, nout, "ab"[part]), ["../C13/pair.c"],
+             defs=["NR=%d" % nr, "NOUT=%d" % nout, "VP_NOUT=%d" % nout, "TOPO=%d" % topo, "PART=%d" % part] + fixdefs(),
+             unwind=max(nr, nout) + 1, unwindset=us_relay(nout), object_bits=12, patches=[PATCH_H], units=[RD_C, RD_H],
+             kf=(KF if (topo and part == 0) else None), timeout=timeout, tiers=tiers,
+             cflags=(["-fno-sanitize=shift"] if topo == 2 else []),
+             info={"symbolic": ["root", "destination rank set of every output", "observed destination rank s",
+                                "arbitrary other sender q (part b)"],
+                   "enumerated": ["NR", "NOUT", "topology", "part a (expected sender) / b (nobody else)"],
+                   "bounds": {"NR": nr, "NOUT": nout, "topology": TOPO[topo]},
+                   "stubs": STUBS_RELAY, "functions": F_RELAY,
+                   "assumptions": ["only the root and destination ranks run the relay (part b)",
+                                   "a non-root rank enters the propagation with the propagation mask of all outputs that have "
+                                   "destinations (asserted of every message in part a)"],
+                   "patches": ["remote_dep.h: output[1] -> output[NOUT] (struct hack)"]})
+
+
+def relay_q(nr, nout, topo, tiers=("thorough",), timeout=3400):
+    return Q("relay_%s_n%d_o%d" % (TOPO[topo], nr, nout), ["../C13/relay.c"],
+             defs=["NR=%d" % nr, "NOUT=%d" % nout, "VP_NOUT=%d" % nout, "TOPO=%d" % topo] + fixdefs(),
+             unwind=max(nr, nout) + 1, unwindset=us_relay(nout), object_bits=12, patches=[PATCH_H], units=[RD_C, RD_H],
+             kf=(KF if topo else None), timeout=timeout, tiers=tiers, slow=True,
+             cflags=(["-fno-sanitize=shift"] if topo == 2 else []),
+             info={"symbolic": ["root", "destination rank set of every output"], "enumerated": ["NR", "NOUT", "topology"],
+                   "bounds": {"NR": nr, "NOUT": nout, "topology": TOPO[topo]}, "stubs": STUBS_RELAY, "functions": F_RELAY,
+                   "assumptions": ["ranks are simulated in increasing relative position; messages must go strictly forward (asserted)"],
+                   "patches": ["remote_dep.h: output[1] -> output[NOUT] (struct hack)"]})
+
+
+def pack_q(nr, nout, short, tiers=("quick", "thorough"), timeout=1200):
+    return Q("pack_n%d_o%d_s%d" % (nr, nout, short), ["../C13/pack.c"],
+             defs=["NR=%d" % nr, "NOUT=%d" % nout, "VP_NOUT=%d" % nout, "SHORT=%d" % short],
+             unwind=nout + 2, unwindset=["remote_dep_mpi_pack_dep.0:%d" % (nout + 1), "remote_dep_mpi_pack_dep.7:%d" % (nout + 1)],
+             object_bits=12, patches=[PATCH_H, PATCH_KEY], units=[RD_MPI, RD_H], timeout=timeout, tiers=tiers, incs=[C13DIR],
+             info={"symbolic": ["root", "peer", "outgoing_mask", "propagation mask", "rank bitset of every output",
+                                "control-flow mask", "pending_ack"],
+                   "enumerated": ["NR", "NOUT", "short limit: 0 / compiled default / default with an oversized output 1"],
+                   "bounds": {"NR": nr, "NOUT": nout},
+                   "stubs": ["parsec_ce.pack_size (count*extent)", "parsec_ce.pack (advances position, records the packed object)",
+                             "tdm.outgoing_message_pack (no piggyback)", "parsec_fatal (assume false)"],
+                   "functions": ["remote_dep_mpi_pack_dep", "remote_dep_rank_to_bit"],
+                   "patches": ["remote_dep.h: output[1] -> output[NOUT]", "remote_dep_mpi.c: data-key cast in pack_dep -> VP_KEY2DEPS (asserted)"]})
+
+
+def recv_q(nr, nout, listing, tiers=("quick", "thorough"), timeout=2400):
+    return Q("recv_n%d_o%d_%s" % (nr, nout, "kfclass" if listing else "ok"), ["../C13/recv.c"],
+             defs=["NR=%d" % nr, "NOUT=%d" % nout, "VP_NOUT=%d" % nout, "LISTING=%d" % listing, "TOPO=1"],
+             unwind=max(nr, nout) + 2, unwindset=us_recv(nout), object_bits=12, patches=[PATCH_H, PATCH_KEY],
+             units=[RD_MPI, RD_C, RD_H], timeout=timeout, tiers=tiers, incs=[C13DIR],
+             info={"symbolic": ["root", "receiving rank", "sender", "destination rank set of every output", "control-flow mask"]
+                               + (["listed subset of the consumed outputs"] if listing else []),
+                   "enumerated": ["NR", "NOUT"], "bounds": {"NR": nr, "NOUT": nout},
+                   "stubs": ["task_class.iterate_successors", "successor get_datatype (one element of the output's type / control)",
+                             "task_class.release_deps (counts local releases)", "parsec_taskpool_lookup (asserts the id)",
+                             "tdm.incoming_message_end / outgoing_message_start", "remote_dep_dequeue_send (counts, records mask)",
+                             "payload arrival (recv_activate / get_end) not modelled"],
+                   "functions": ["remote_dep_get_datatypes", "remote_dep_mpi_retrieve_datatype", "remote_dep_release_incoming",
+                                 "parsec_remote_dep_propagate", "parsec_gather_collective_pattern", "parsec_remote_dep_activate",
+                                 "remote_dep_complete_and_cleanup", "remote_deps_free"],
+                   "patches": ["remote_dep.h: output[1] -> output[NOUT]"]})
+
+
+def e2e_q(nr, nout, topo, short, tiers=("thorough",), timeout=3400):
+    m = nout + 1
+    return Q("e2e_%s_n%d_o%d_s%d" % (TOPO[topo], nr, nout, short), ["../C13/e2e.c"],
+             defs=["NR=%d" % nr, "NOUT=%d" % nout, "VP_NOUT=%d" % nout, "TOPO=%d" % topo, "SHORT=%d" % short] + fixdefs(),
+             unwind=max(nr, nout) + 1,
+             unwindset=us_recv(nout) + ["remote_dep_mpi_pack_dep.0:%d" % m, "remote_dep_mpi_pack_dep.7:%d" % m,
+                                        "comm_thread_drain.0:%d" % (nr + 1)],
+             object_bits=12, patches=[PATCH_H, PATCH_KEY], units=[RD_MPI, RD_C, RD_H], kf=(KF if topo else None), incs=[C13DIR],
+             timeout=timeout, tiers=tiers, slow=True, mem_gb=16,
+             info={"symbolic": ["root", "destination rank set of every output"], "enumerated": ["NR", "NOUT", "topology", "short limit"],
+                   "bounds": {"NR": nr, "NOUT": nout, "topology": TOPO[topo]},
+                   "stubs": ["remote_dep_dequeue_send = queue push; harness communication thread runs the real remote_dep_mpi_pack_dep per peer",
+                             "parsec_ce.pack/pack_size", "task_class.iterate_successors / release_deps / successor get_datatype",
+                             "parsec_taskpool_lookup", "termdet hooks"],
+                   "functions": F_RELAY + ["remote_dep_mpi_pack_dep", "remote_dep_get_datatypes", "remote_dep_mpi_retrieve_datatype",
+                                           "remote_dep_release_incoming"],
+                   "patches": ["remote_dep.h: output[1] -> output[NOUT]", "remote_dep_mpi.c: data-key cast in pack_dep -> VP_KEY2DEPS (asserted)"]})
+
 
 def queries(ctx):
+    detect_fix(ctx)
     qs = []
     for topo in (0, 1, 2):
         for part in (0, 1):
             qs.append(pair_q(4 if topo == 2 else 3, 2, topo, part))
+    for short in (0, 1, 2):
+        qs.append(pack_q(4, 3, short))
+    qs.append(recv_q(3, 3, 0))
+    if ctx.thorough:
+        T = ("thorough",)
+        qs.append(recv_q(3, 3, 1, tiers=T))
+        qs.append(recv_q(4, 3, 0, tiers=T))
+        qs.append(pack_q(8, 3, 2, tiers=T))
+        for topo in (0, 1, 2):
+            for part in (0, 1):
+                if topo != 2:
+                    qs.append(pair_q(4, 2, topo, part, tiers=T))
+                qs.append(pair_q(3, 3, topo, part, tiers=T))
+            qs.append(relay_q(4 if topo == 2 else 3, 2, topo))
+        qs.append(pair_q(5, 2, 2, 0, tiers=T))
+        qs.append(pair_q(5, 2, 2, 1, tiers=T))
+        qs.append(e2e_q(3, 2, 1, 1))
     return qs
 
+
 def mutants(ctx):
-    return []
+    return [
+        Mutant("activate_no_mark_forwarded", RD_C,
+               "                assert(!remote_dep_is_forwarded(es, remote_deps, rank));\n                remote_dep_mark_forwarded(es, remote_deps, rank);",
+               "                assert(!remote_dep_is_forwarded(es, remote_deps, rank));", queries=["pair_chain_n3_o2_b", "pair_star_n3_o2_b"]),
+        Mutant("chain_child_any_later", RD_C, "    if(him == me+1) return 1;", "    if(him >= me+1) return 1;", queries=["pair_chain_n3_o2_b"]),
+        Mutant("chain_child_skips_one", RD_C, "    if(him == me+1) return 1;", "    if(him == me+2) return 1;", queries=["pair_chain_n3_o2_a"]),
+        Mutant("binomial_child_off_by_one", RD_C, "    return him == me;", "    return him == me + 1;", queries=["pair_binomial_n4_o2_a"]),
+        Mutant("rank_to_bit_no_root_shift", RD_H, "    uint32_t _rank = (rank + nb_nodes - root) % nb_nodes;", "    uint32_t _rank = (rank) % nb_nodes;",
+               queries=["pair_chain_n3_o2_a", "pair_star_n3_o2_a"]),
+        Mutant("activate_my_idx_off_by_one", RD_C, "                        my_idx = idx;", "                        my_idx = idx - 1;", queries=["pair_chain_n3_o2_a", "pair_chain_n3_o2_b"]),
+        Mutant("pack_lists_all_outgoing", RD_MPI,
+               "        if( !(deps->output[k].rank_bits[peer_bank] & peer_mask) ) continue;\n\n        parsec_dep_data_description_t *data_desc",
+               "\n        parsec_dep_data_description_t *data_desc", queries=["pack_n4_o3_s1"]),
+        Mutant("pack_rendezvous_bit_by_position", RD_MPI, "        item->cmd.activate.task.output_mask |= (1U<<k);",
+               "        item->cmd.activate.task.output_mask |= (1U<<(data_idx-1));", queries=["pack_n4_o3_s0"]),
+        Mutant("recv_sizes_indexed_by_output", RD_MPI,
+               "origin->output[k].data.remote.src_count = (idx < data_sizes[0]) ? data_sizes[idx+1] : 0;",
+               "origin->output[k].data.remote.src_count = (k < data_sizes[0]) ? data_sizes[k+1] : 0;", queries=["recv_n3_o3_ok"]),
+        Mutant("recv_takes_every_destination", RD_MPI,
+               "    if( dst_rank != eu->virtual_process->parsec_context->my_rank )\n        return PARSEC_ITERATE_CONTINUE;\n\n    parsec_remote_deps_t *deps               = (parsec_remote_deps_t*)param;",
+               "    parsec_remote_deps_t *deps               = (parsec_remote_deps_t*)param;", queries=["recv_n3_o3_ok"]),
+    ]
+
+
+CLAIMED = True
+MANIFEST = {
+ "engine": "cbmc-src",
+ "text": "Bounded model checking of the real collective-activation relay (remote_dep.c: parsec_remote_dep_activate / _propagate / "
+         "parsec_gather_collective_pattern, the three child predicates and the forwarded mask; remote_dep.h rank<->bit mapping; "
+         "remote_dep_mpi.c: remote_dep_mpi_pack_dep, remote_dep_get_datatypes, remote_dep_release_incoming). One SAT query quantifies over "
+         "every root, every family of destination rank sets of the outputs and every observed destination rank, per topology (star, chain, "
+         "binomial): the expected sender sends it exactly one activation with exactly the outputs it consumes, nobody else sends to it, "
+         "senders are strictly closer to the root; separate queries show that the real pack_dep selects exactly those outputs for every "
+         "short-message limit and that the real receiver expects, sizes and locally releases exactly the outputs it consumes, each once. "
+         "The check found, and a real 3/4-rank MPI run confirmed, that chain and binomial relays lose an output when the destination sets "
+         "differ (known finding C13-chain-relay-differing-dests, fix proposed); outside that recorded class everything holds.",
+ "note": "bounds: 3-4 ranks (5 thorough), 2-3 outputs, one 32-bit rank word; the per-destination obligations are composed into "
+         "'every destination exactly once' by a manual induction (whole-system simulations relay_*/e2e_* in the thorough tier check it "
+         "directly at 3-4 ranks); MPI, payload bytes, the rendezvous handshake, the root-side gathering in parsec.c and the "
+         "ptgpp-generated successor iterator are stubs; one cast in pack_dep is rewritten into an asserted equivalent (CBMC cannot follow "
+         "a pointer through an integer key); the known-finding class is assumed away in the .excl variants and shown to fail in the .only variants.",
+ "technique": "CBMC bounded symbolic execution of the real C units (included, static functions reached directly) + SAT (cadical); "
+              "symbolic root / destination sets / ranks, enumerated sizes and topology; counterexamples replayed natively (gcc+ASan) and on real MPI",
+}
